@@ -19,7 +19,7 @@ pub struct Case {
     pub probe: Option<String>,
 }
 
-pub const PROBES: [&str; 12] = [
+pub const PROBES: [&str; 18] = [
     "pronoun_after_if",
     "pronoun_write_after_if",
     "pronoun_after_call",
@@ -32,6 +32,12 @@ pub const PROBES: [&str; 12] = [
     "call_of_variable",
     "unknown_name",
     "function_as_variable",
+    "pronoun_after_untaken_if",
+    "call_through_shadowing_parameter",
+    "call_through_shadowing_block_local",
+    "pronoun_after_element_read",
+    "pronoun_as_index",
+    "function_visible_again_after_shadowing_call",
 ];
 
 impl Prop for C05 {
